@@ -90,7 +90,7 @@ func checkM1(c *run.Ctx, in Input) {
 		"Math.sqrt(P[2])", "Math.pow(P[0],2)", "Math.pow(P[0],0.5)", "Math.pow(P[0],-1)", "Math.pow(P[0],1)", "Math.pow(P[0],3)",
 		"Math.atan2(P[0],1)", "Math.atan2(P[0],-1)", "Math.atan2(Math.sin(P[0]),Math.cos(P[0]))", "Math.exp(P[0]-1)",
 		// functions otto ships beyond 15.8.2, tied to the ES5 ones by their defining relations
-		"Math.log10(P[0])", "Math.log2(P[0])", "Math.cosh(P[0])", "Math.sinh(P[0])", "Math.cosh(P[1])", "Math.sinh(P[1])")
+		"Math.log10(P[0])", "Math.log2(P[0])", "Math.cosh(P[0])", "Math.sinh(P[0])", "Math.cosh(P[1])", "Math.sinh(P[1])", "Math.expm1(P[0])")
 	if !runJS(c, in, "Math:m1", "cap("+strings.Join(calls, ",")+")", len(calls)) {
 		return
 	}
@@ -276,6 +276,18 @@ func checkM1(c *run.Ctx, in Input) {
 		case ax <= 710.4758600739439:
 			// e^|x| / 2 = e^(|x|/2) * e^(|x|/2) / 2 is representable up to |x| = ln(2 * MAX_VALUE)
 			rel("Math.cosh", "cosh x is finite for |x| <= ln(2 MAX_VALUE)", finite(ch) && finite(sh), ch, sh)
+		}
+	}
+	if x == x {
+		// expm1 x = e^x - 1: never above e^x, finite wherever e^x is, equal to e^x once the 1 is below half an ulp
+		em, e := extra[21], R["exp"]
+		// (two library routines: a last-digit difference either way is not a wrong function)
+		rel("Math.expm1", "expm1 x <= exp x (to 2 ulp)", em <= e || near(em, e, 2, 0), em, e)
+		if x > 40 {
+			rel("Math.expm1", "expm1 x = exp x for x > 40", near(em, e, 2, 0), em, e)
+		}
+		if ax < 1e-8 {
+			rel("Math.expm1", "expm1 x = x + x^2/2 for tiny x", near(em, x+x*x/2, 4, 1e-300), em, x+x*x/2)
 		}
 	}
 	c.Sample(in)
